@@ -186,6 +186,9 @@ func c04EngInterp(t *testing.T, c c04EngCase) (v kit.Verdict) {
 				}
 				rej401 = true
 				classes["401"] = true
+			case c.Jwt && code == http.StatusUnauthorized:
+				fail = fmt.Sprintf("%s: JWT gate answered 401 for a token the reference verifier accepts (ran=%d)", desc, seen.ran)
+				return
 			case sigExp == c04Unspec:
 				classes["unspec-sig"] = true
 				if seen.ran == 1 && c.Jwt {
